@@ -193,6 +193,10 @@ func C12(r *core.Run) int {
 	ch := make(chan cliJob)
 	var wg sync.WaitGroup
 	cliRuns := 0
+	foreignCwd := filepath.Join(r.Scratch, "cwd-with-foreign-config")
+	_ = os.MkdirAll(foreignCwd, 0o755)
+	_ = os.WriteFile(filepath.Join(foreignCwd, ".goag.yaml"), []byte("cors:\n  enable: true\nmaybe:\n  type: example.com/other.Maybe\n"), 0o644)
+	_ = os.WriteFile(filepath.Join(foreignCwd, "openapi.yaml"), []byte("openapi: 3.0.3\ninfo: {title: foreign, version: '1'}\npaths: {}\n"), 0o644)
 	for w := 0; w < workers(); w++ {
 		wg.Add(1)
 		go func() {
@@ -228,7 +232,13 @@ func C12(r *core.Run) int {
 				if j.k%2 == 1 {
 					env = []string{"TZ=Etc/GMT+12", "LC_ALL=en_US.UTF-8", "LANG=de_DE.UTF-8"}
 				}
-				out, err := core.RunCmd(r.Scratch, time.Minute, env, cli, p.CLIArgs()...)
+				// ... and the working directory: every path is given in full, so a config
+				// file that happens to lie where the process was started is nobody's
+				cwd := r.Scratch
+				if j.k%2 == 1 {
+					cwd = foreignCwd
+				}
+				out, err := core.RunCmd(cwd, time.Minute, env, cli, p.CLIArgs()...)
 				if err != nil {
 					r.Report(core.Violation{Case: p.Case.ID, Class: "nondeterministic-verdict", Message: "CLI failed where the in-process run succeeded: " + core.Trunc(out, 300), Spec: string(p.Case.SpecBytes()), Flags: p.Case.Flags})
 					continue
